@@ -421,6 +421,51 @@ def fault_composites(res, ctx, rng, fams):
             return
 
 
+FAULT_LINE_WORDS = (0, 1, 77, 255, (1 << 31) - 1, 1 << 31, (1 << 32) - 1, 1 << 32, 1 << 63, (1 << 64) - 1)
+
+
+def fault_lines(res, ctx, rng, fams):
+    """The LINE of a successful page fault whose window holds one real-fault record: it shows the names of exactly the
+    protection bits of that record, for every protection byte x every kind of real-fault record x boundary values of the
+    record's other words (pid 0 is the kernel task, address / offset / tag 0 are ordinary) x every fault type."""
+    fam = fams['vmprot']
+    idx = 0
+    for kind in ('internal', 'external', 'shared'):
+        for prot in range(256):
+            idx += 1
+            if not ctx.mine(idx):
+                continue
+            for k, pid in enumerate(FAULT_LINE_WORDS):
+                vaddr, offset = rng.choice(FAULT_LINE_WORDS), rng.choice(FAULT_LINE_WORDS)
+                tag = rng.choice((0, 1, 0xffff, rng.getrandbits(16)))
+                ftype = 1 + (prot + k) % 11
+                addr = rng.choice(FAULT_LINE_WORDS)
+                seq = H.page_fault(addr, rng.choice((0, 1)), 0, 1 + (prot + 3 * k) % 11,
+                                   [H.real_fault(kind, vaddr, prot, ftype, pid, tag=tag, offset=offset)])
+                events = H.materialize(H.on_thread(6, seq))
+                case = {'fault_line': [kind, prot, pid], 'events': [ev.ev_to_case(e) for e in events]}
+                try:
+                    parser = ev.new_parser()
+                    texts = [(type(t).__name__, str(t)) for t in (parser.feed(e) for e in events) if t is not None]
+                except Exception as x:
+                    res.violation(f'c11-fault-line-raises-{core.exc_name(x)}', f'page fault with a {kind} real-fault record, '
+                                  f'protection byte {hex(prot)}, pid word {hex(pid)}: {x!r}', case)
+                    return
+                res.case(('fault-line', kind, prot, pid))
+                res.count('fault_lines_checked')
+                lines = [t for n, t in texts if n == 'MachVmfault']
+                if len(lines) != 1 or ', vm_prot: ' not in lines[0] or not lines[0].endswith(f', pid: {pid}'):
+                    res.violation('c11-vmprot-fault-line-without-protections', f'page fault with a {kind} real-fault record '
+                                  f'(protection byte {hex(prot)}, pid word {hex(pid)}, address {hex(vaddr)}, offset {hex(offset)}): '
+                                  f'the line(s) read {lines}', case)
+                    return
+                shown = shown_names(lines[0].split(', vm_prot: ', 1)[1], fam)
+                bad = fam.check(prot, shown)
+                if bad:
+                    res.violation(f'c11-vmprot-{bad[0]}', f'page-fault line: {bad[1]}; text {lines[0]!r}', case)
+                    return
+
+
 def aborted_decodes(res, ctx, rng, fams):
     """The decode of a flag word is cut short at every line it executes inside the library by an exception that does not
     come from the data (vlib.monitors.AbortAt), the process goes on, and the same word is decoded again: the names are
@@ -586,6 +631,7 @@ def run(ctx):
     drive_pipeline(res, ctx, rng, fams)
     sampler_composites(res, ctx, rng, fams)
     fault_composites(res, ctx, rng, fams)
+    fault_lines(res, ctx, rng, fams)
     if ctx.shard == 0 or ctx.thorough:
         cold_start(res, ctx, rng, fams)
     if ctx.shard in (1, 2) or ctx.thorough:
@@ -604,6 +650,7 @@ def run(ctx):
     res.require('ioctl_words_checked', 100)
     res.require('sampler_composites_checked', 20)
     res.require('fault_composites_checked', 50)
+    res.require('fault_lines_checked', 1000)
     res.require('cold_start_interpreters', 8)
     res.require('enum_values_compared_with_reference', 50)
     return res
@@ -634,6 +681,19 @@ def replay(case, ctx):
                     print('  ', str(t))
         except Exception as x:
             res.violation(f'c11-ioctl-raises-{core.exc_name(x)}', repr(x), case)
+        return res
+    if 'fault_line' in case:
+        parser = ev.new_parser()
+        for e in [ev.ev_from_case(c) for c in case['events']]:
+            t = parser.feed(e)
+            if t is not None:
+                print('  ', str(t))
+                if type(t).__name__ == 'MachVmfault':
+                    prot = case['fault_line'][1]
+                    bad = fams['vmprot'].check(prot, shown_names(str(t).split(', vm_prot: ', 1)[1], fams['vmprot'])) \
+                        if ', vm_prot: ' in str(t) else ('fault-line-without-protections', 'the line shows no protections')
+                    if bad:
+                        res.violation(f'c11-vmprot-{bad[0]}', f'{bad[1]}; text {str(t)!r}', case)
         return res
     if 'family' in case and 'value' in case and case['family'] in helper_functions():
         fam = fams[case['family']]
